@@ -479,7 +479,9 @@ func (c14) Exec(seed int64, i int, tier string) Record {
 		exp = "(q " + strings.Join(got, " ") + ")"
 	}
 	rec.Q = append(rec.Q,
-		LeanQ{Driver: "impl", Line: "(q calls f " + p.Sexp() + " " + ds + ")", Expect: exp, What: "recorded calls vs Impl"},
+		// C14_log_eq_calls: the log of Impl.run IS the denoted call sequence `calls` (the statement of the protocol), so a
+		// difference here is a difference from the protocol, not merely from a model of the code
+		LeanQ{Driver: "impl", Line: "(q calls f " + p.Sexp() + " " + ds + ")", Expect: exp, What: "recorded calls vs the call protocol (Calls.calls = log of Impl.run, C14_log_eq_calls)", Oracle: true},
 		LeanQ{Driver: "impl", Line: "(q run f " + p.Sexp() + " " + ds + ")", Expect: out.ImplExpect(true), What: "outcome vs Impl.run"})
 	kind := "err-" + out.ErrKind
 	if out.OK {
